@@ -4,7 +4,6 @@
   primitives (see VK.Model.Dist); the correspondence check ties the *arguments* the implementation
   passes to those primitives to the ones the model uses.
 -/
-import VK.Props.Kernels
 import VK.Lemmas.DistLemmas
 import Mathlib.Data.List.Nodup
 
